@@ -140,4 +140,8 @@ def run(res, tier):
                         "the inconsistent-stored-copy reject inside check_collected_is_newer is C05's subject"]
     res.rule = ("one case = one occurrence of tmp_file.persist on a feasible path; obligations decided by z3 on the "
                 "path condition; evaluations = z3 queries")
+    # nothing destroys the stored version before an update has completed: the engine rejects the stored point only
+    # when it is internally inconsistent (obligation shared with C05)
+    import c05
+    c05.check_newer(res, E, only_reject=True)
     mprop.finish_engine(res, E)
